@@ -26,6 +26,11 @@ Definition lastn {A} (n : nat) (l : list A) : list A := skipn (length l - n) l.
 Definition full_bad_window (n : nat) (m : Z) (rs : list bool) : bool :=
   Nat.leb n (length rs) && Z.ltb (count_true (lastn n rs)) m.
 
+(* "known-good": a full observation window with at least the required number of
+   successes *)
+Definition full_good_window (n : nat) (m : Z) (rs : list bool) : bool :=
+  Nat.leb n (length rs) && Z.leb m (count_true (lastn n rs)).
+
 (* one monitored step: returns None when the observation violates the
    property *)
 Definition mon_step (n : nat) (m : Z) (s : mon) (o : cop) (obs : bhstate) : option mon :=
@@ -47,11 +52,8 @@ Definition mon_step (n : nat) (m : Z) (s : mon) (o : cop) (obs : bhstate) : opti
           | Allowed => None
           end
       | _ =>
-          (* not blocked: requests are never refused *)
-          match obs with
-          | Blocked => None
-          | _ => Some s
-          end
+          (* not blocked: requests are never refused, and the answer is the state *)
+          if bhstate_eqb obs (cur s) then Some s else None
       end
   | Rec b =>
       let rs := if bhstate_eqb (cur s) Blocked && b then [] else results s ++ [b] in
@@ -64,7 +66,12 @@ Definition mon_step (n : nat) (m : Z) (s : mon) (o : cop) (obs : bhstate) : opti
                        (if bhstate_eqb (cur s) Blocked then run s else 0)
                        (if bhstate_eqb (cur s) Blocked then probed s else false))
           else None
-      | x => Some (mkMon rs x 0 false)
+      | Allowed =>
+          (* known-good only after a full window with enough successes *)
+          if full_good_window n m rs then Some (mkMon rs Allowed 0 false) else None
+      | Probing =>
+          (* still probing exactly while the window is not full *)
+          if Nat.ltb (length rs) n then Some (mkMon rs Probing 0 false) else None
       end
   end.
 
